@@ -718,7 +718,10 @@ static void run_case(Rng&, Ctx& c)
       pos              = (t2 == std::string::npos) ? rest.size() : t2 + 1;
       if (baselineBroken.count(rule)) continue;
       anyBad = true;
-      L.fail("post-load", base + "returned-object:" + rule, why + " | " + det);
+      // the C07 rules concern the table part, read by Db::_deserialize (NF kinds) or by the CSV reader, whatever the kind
+      bool isCsv       = kind.name.compare(0, 4, "CSV:") == 0;
+      std::string who  = (rule.compare(0, 4, "c07-") == 0) ? (isCsv ? "CSV" : (kind.post->name == "Db" || kind.post->asDb ? "Db" : kind.name)) : kind.name;
+      L.fail("post-load", "C09:" + who + ":returned-object:" + rule, why + " | " + det);
     }
     if (!anyBad) L.pass("post-load");
   }
